@@ -207,7 +207,14 @@ fn shapes(path: &str, seed: u64, per: usize, mutate: bool) {
         let sh = &e["sh"];
         for _ in 0..per {
             evals += 1;
-            let pdu = build(sh, &mut rng);
+            // (building the value already calls the code's own length arithmetic: a panic there is a result, not a tool error)
+            let pdu = match catch_unwind(AssertUnwindSafe(|| build(sh, &mut rng))) {
+                Ok(p) => p,
+                Err(_) => {
+                    note(&mut viol, "C05", "encoded_len panicked", sh, json!(null));
+                    continue;
+                }
+            };
             let built = catch_unwind(AssertUnwindSafe(|| (pdu.clone().encode(), pdu.encoded_len(), pdu.header.clone().encode().len(), pdu.payload.encoded_len(pdu.header.large_file_flag))));
             let (enc, announced, hlen, dlen) = match built {
                 Ok(x) => x,
@@ -339,8 +346,11 @@ fn crc(path: &str, seed: u64, out: &str, heavy_mode: bool) {
         if !b(sh, "crc") {
             continue;
         }
-        let pdu = build(sh, &mut rng);
-        let enc = pdu.clone().encode();
+        // (a panic of the encoder is C05's business: such a shape is skipped here)
+        let (pdu, enc) = match catch_unwind(AssertUnwindSafe(|| { let p = build(sh, &mut rng); let e = p.clone().encode(); (p, e) })) {
+            Ok(x) => x,
+            Err(_) => continue,
+        };
         pdus += 1;
         // thorough tier: the dense pattern sets on every 32nd PDU (all of them would take hours), the quick sets on the rest
         let heavy = heavy_mode && pdus % 32 == 0;
